@@ -31,6 +31,8 @@ impl Shape17 {
 }
 
 pub const CAPS: [usize; 19] = [0, 1, 2, 3, 4, 5, 6, 7, 8, 9, 10, 11, 12, 13, 14, 15, 16, 17, 32];
+/// capacities around the larger thresholds (thorough tier)
+pub const CAPS_BIG: [usize; 16] = [0, 16, 31, 32, 33, 47, 63, 64, 65, 96, 127, 128, 129, 200, 255, 256];
 
 pub fn program(s: &Shape17) -> Program {
     let mut ops = vec![Op::Commit { v: ScalarSpec::Small(5), blind: ScalarSpec::Rand(3) }];
@@ -65,11 +67,12 @@ pub fn program(s: &Shape17) -> Program {
 
 fn shape_case<G: CurveTag>(s: &Shape17, col: &mut Collector) -> Result<(), Failure> {
     let prog = program(s);
+    let caps: &[usize] = if s.n1 + s.n2 > 20 { &CAPS_BIG } else { &CAPS };
     let n = s.n1 + s.n2;
     let need = n.next_power_of_two().max(1);
     let what = |extra: serde_json::Value| json!({"shape": format!("{:?}", s), "need": need, "detail": extra});
     let mut reference: Option<(Vec<u8>, crate::drive::ProveOut<G>)> = None;
-    for cap_p in CAPS {
+    for &cap_p in caps {
         col.evals_add(1);
         let p = run_prover::<G>(&prog, &ProveOpts { cap: Some(cap_p), ..Default::default() });
         if let Some(pn) = &p.panic {
@@ -112,7 +115,7 @@ fn shape_case<G: CurveTag>(s: &Shape17, col: &mut Collector) -> Result<(), Failu
     let (_, p) = reference.expect("some capacity suffices");
     let proof = p.proof.as_ref().unwrap();
     let valid = fixture::<G>(1, 0);
-    for cap_v in CAPS {
+    for &cap_v in caps {
         let near = cap_v + 1 >= need && cap_v <= need + 1;
         for mode in 0..3u8 {
             col.evals_add(1);
@@ -188,6 +191,13 @@ pub fn run(tier: &str, seed: u64) -> i32 {
                     shapes.push(Shape17 { curve, n1, n2, closure: 0 });
                 }
                 shapes.push(Shape17 { curve, n1, n2, closure: 1 });
+            }
+        }
+    }
+    if tier == "thorough" {
+        for curve in Curve::ALL {
+            for (n1, n2) in [(31, 0), (32, 0), (33, 0), (20, 12), (30, 3), (63, 0), (60, 4), (64, 0), (33, 32), (65, 0), (100, 28), (127, 0), (128, 0), (129, 0)] {
+                shapes.push(Shape17 { curve, n1, n2, closure: if n2 > 0 { 1 } else { 0 } });
             }
         }
     }
